@@ -5,7 +5,7 @@ from vlib.common import hexs
 from vlib.decsuite import D, parse_tok, cls_kind, planes_of
 
 THEOREMS = ["C13_new_picture_planes", "C13_pipeline_total"]
-BRIDGES = ["BridgeDeblock"]
+BRIDGES = ["BridgeDeblock", "BridgeKPicture"]
 
 
 def gen_cases(ctx, wmax, hmax, quants):
